@@ -489,16 +489,20 @@ func vEncFloat[T FloatType](r *vRecEncoder, via int, v T) {
 }
 
 //verif:witness H_C07_strings end
-//verif:bound C07 all string fidelity through the whole layout: one String field whose key (0..2 bytes) and value (0..3 bytes) are arbitrary bytes; the line must parse and decode to the sanitised key/value
+//verif:bound C07 all string fidelity through the whole layout: one String field whose key (0..2 bytes, thorough 0..3) or value (0..3 bytes, thorough 0..4) are arbitrary bytes; the line must parse and decode to the sanitised key/value
 // H_C07_strings: arbitrary key/value bytes through JSONLayout.ToBytes and the reference parser.
 func H_C07_strings() {
 	var key, val string
+	kmax, vmax := 2, 3
+	if vTier() > 0 {
+		kmax, vmax = 3, 4
+	}
 	if vChoose("which", 2) == 0 {
-		key = vString("key", vChoose("klen", 3))
+		key = vString("key", vChoose("klen", kmax+1))
 		val = "v"
 	} else {
 		key = "k"
-		val = vString("val", vChoose("vlen", 4))
+		val = vString("val", vChoose("vlen", vmax+1))
 	}
 	e := &Event{Level: InfoLevel, Time: vFixedTime, File: "file.go", Line: 10, Tag: "_t_x", Fields: []Field{String(key, val)}}
 	out := (&JSONLayout{BaseLayout{FileLineLength: 48}}).ToBytes(e)
